@@ -31,7 +31,7 @@ where
     CS::Expander: for<'a> ExpandMsg<'a>,
 {
     let kp = KP::<CS>::generate(IKM, None, None).unwrap();
-    let ls: Vec<usize> = if thorough { vec![0, 1, 2, 3, 5, 11, 64] } else { vec![0, 1, 2, 5] };
+    let ls: Vec<usize> = if thorough { vec![0, 1, 2, 3, 5, 11, 31, 32, 33, 64, 70, 100, 200] } else { vec![0, 1, 2, 5, 31, 32, 33, 70] };
     for l in ls {
         let m = msgs(l);
         for (hn, h) in hdr_variants() {
@@ -199,6 +199,31 @@ where
                 }
             }
         }
+    }
+    // many messages / many undisclosed messages (thresholds of batching, buffers, expand_message limits)
+    let mut large: Vec<(usize, Vec<usize>)> = vec![(40, vec![0, 39]), (170, vec![]), (170, vec![0, 169]), (300, vec![7])];
+    if thorough {
+        large.push((1400, vec![]));
+        large.push((700, vec![0, 350, 699]));
+    }
+    for (l, d) in large {
+        let m = msgs(l);
+        let sig = Sig::<CS>::sign(Some(&m), kp.private_key(), kp.public_key(), Some(HEADER)).unwrap();
+        let (m2, d2, pkb, sb) = (m.clone(), d.clone(), kp.public_key().to_bytes(), sig.to_bytes());
+        let outcome = guard(move || {
+            let pk = BBSplusPublicKey::from_bytes(&pkb).unwrap();
+            let dopt: Option<&[usize]> = if d2.is_empty() { None } else { Some(&d2) };
+            let p = match Pok::<CS>::proof_gen(&pk, &sb, Some(HEADER), Some(PH), Some(&m2), dopt) {
+                Ok(p) => p,
+                Err(e) => return format!("err:proof_gen:{e:?}"),
+            };
+            let dm: Vec<Vec<u8>> = d2.iter().map(|i| m2[*i].clone()).collect();
+            match p.proof_verify(&pk, Some(&dm), Some(&d2), Some(HEADER), Some(PH)) {
+                Ok(()) => "ok:accepted".to_string(),
+                Err(e) => format!("err:proof_verify:{e:?}"),
+            }
+        });
+        push(out, format!("{name}-large-L{l}-D{d:?}"), "proof_gen+proof_verify", vec![format!("L={l}"), format!("D={d:?}")], outcome, "expect-ok");
     }
 }
 
@@ -407,6 +432,50 @@ where
         });
         push(out, format!("{name}-verify_blind_sign-{id}"), "verify_blind_sign(edited)", vec![id.clone()], outcome, expect);
     }
+    // blind_proof_verify must refuse edited statements (L = 3 signer messages, M = 2 committed; disclosed signer {0, 2}, committed {1})
+    let m3 = msgs(3);
+    let bs3 = BSig::<CS>::blind_sign(kp.private_key(), kp.public_key(), Some(&cb), Some(HEADER), Some(&m3)).unwrap();
+    let (di, dj) = (vec![0usize, 2], vec![1usize]);
+    let proof = Pok::<CS>::blind_proof_gen(kp.public_key(), &bs3.to_bytes(), Some(HEADER), Some(PH), Some(&m3), Some(&cm), Some(&di), Some(&dj), Some(&blind)).unwrap();
+    let pb = proof.to_bytes();
+    let dm: Vec<Vec<u8>> = di.iter().map(|i| m3[*i].clone()).collect();
+    let dcm: Vec<Vec<u8>> = dj.iter().map(|j| cm[*j].clone()).collect();
+    let other_pk = KP::<CS>::generate(IKM, Some(b"other"), None).unwrap().public_key().to_bytes();
+    // (id, pk, proof bytes, header, ph, L, disclosed msgs, disclosed committed msgs, indexes, commitment indexes)
+    type PC = (String, Vec<u8>, Vec<u8>, Vec<u8>, Vec<u8>, usize, Vec<Vec<u8>>, Vec<Vec<u8>>, Vec<usize>, Vec<usize>);
+    let base = |id: &str| -> PC { (id.to_string(), pkb.to_vec(), pb.clone(), HEADER.to_vec(), PH.to_vec(), 3, dm.clone(), dcm.clone(), di.clone(), dj.clone()) };
+    let mut pcs: Vec<PC> = vec![base("honest")];
+    let mut c = base("disclosed-message-changed"); c.6[0][0] ^= 1; pcs.push(c);
+    let mut c = base("disclosed-committed-message-changed"); c.7[0][0] ^= 1; pcs.push(c);
+    let mut c = base("L-minus-1"); c.5 = 2; pcs.push(c);
+    let mut c = base("L-plus-1"); c.5 = 4; pcs.push(c);
+    let mut c = base("header-changed"); c.3 = b"x".to_vec(); pcs.push(c);
+    let mut c = base("ph-changed"); c.4 = b"x".to_vec(); pcs.push(c);
+    let mut c = base("other-pk"); c.1 = other_pk.to_vec(); pcs.push(c);
+    let mut c = base("index-moved"); c.8 = vec![0, 1]; pcs.push(c);
+    let mut c = base("commitment-index-moved"); c.9 = vec![0]; pcs.push(c);
+    // the disclosed committed message cm[1] presented as if it were signer message number L + 1 + 1
+    let mut c = base("committed-message-as-signer-message"); c.6 = vec![m3[0].clone(), m3[2].clone(), cm[1].clone()]; c.8 = vec![0, 2, 5]; c.7 = vec![]; c.9 = vec![]; pcs.push(c);
+    let mut c = base("fewer-disclosed-messages-than-indexes"); c.6 = vec![m3[0].clone()]; pcs.push(c);
+    let mut c = base("fewer-committed-messages-than-indexes"); c.7 = vec![]; pcs.push(c);
+    let mut c = base("more-disclosed-messages-than-indexes"); c.6.push(b"extra".to_vec()); pcs.push(c);
+    let stepb = if thorough { 3 } else { 41 };
+    let mut k = 0;
+    while k < pb.len() * 8 {
+        let mut c = base(&format!("proof-bitflip-{k}"));
+        c.2[k / 8] ^= 1 << (k % 8);
+        pcs.push(c);
+        k += stepb;
+    }
+    for (id, pkx, pbx, hh, phh, l, dmx, dcmx, dix, djx) in pcs {
+        let expect = if id == "honest" { "expect-ok" } else { "expect-err" };
+        let outcome = guard(move || {
+            let pk = match BBSplusPublicKey::from_bytes(&pkx) { Ok(p) => p, Err(e) => return format!("err:pk:{e:?}") };
+            let p = match Pok::<CS>::from_bytes(&pbx) { Ok(p) => p, Err(e) => return format!("err:decode:{e:?}") };
+            res(p.blind_proof_verify(&pk, Some(&hh), Some(&phh), Some(l), Some(&dmx), Some(&dcmx), Some(&dix), Some(&djx)))
+        });
+        push(out, format!("{name}-blind_proof_verify-{id}"), "blind_proof_verify(edited)", vec![id.clone()], outcome, expect);
+    }
 }
 
 pub fn update_history<CS: BbsCiphersuite>(name: &str, out: &mut Vec<Value>, thorough: bool)
@@ -528,6 +597,36 @@ where
         let bf = BlindFactor::random();
         note(format!("run={run} BlindFactor::random"), bf.to_bytes().to_vec(), &mut seen, &mut problems, &mut total);
     }
+    // the same operations on several threads at once: nothing may repeat across threads either
+    {
+        let m = msgs(3);
+        let sig = Sig::<CS>::sign(Some(&m), kp.private_key(), kp.public_key(), Some(HEADER)).unwrap();
+        let (pkb, sb) = (kp.public_key().to_bytes(), sig.to_bytes());
+        let mut handles = vec![];
+        for t in 0..4 {
+            let (pkb, sb, m) = (pkb.clone(), sb.clone(), m.clone());
+            handles.push(std::thread::spawn(move || {
+                let pk = BBSplusPublicKey::from_bytes(&pkb).unwrap();
+                let mut v: Vec<(String, Vec<u8>)> = vec![];
+                for run in 0..2 {
+                    let (c, b) = Com::<CS>::commit(Some(&[b"x".to_vec()])).unwrap();
+                    v.push((format!("thread={t} run={run} C"), c.to_bytes()[0..48].to_vec()));
+                    v.push((format!("thread={t} run={run} secret_prover_blind"), b.to_bytes().to_vec()));
+                    let p = Pok::<CS>::proof_gen(&pk, &sb, Some(HEADER), Some(PH), Some(&m), None).unwrap().to_bytes();
+                    v.push((format!("thread={t} run={run} Abar"), p[0..48].to_vec()));
+                    v.push((format!("thread={t} run={run} r1^"), p[176..208].to_vec()));
+                    v.push((format!("thread={t} run={run} random sk"), KP::<CS>::random().unwrap().private_key().to_bytes().to_vec()));
+                    v.push((format!("thread={t} run={run} BlindFactor::random"), BlindFactor::random().to_bytes().to_vec()));
+                }
+                v
+            }));
+        }
+        for h in handles {
+            for (what, v) in h.join().unwrap() {
+                note(what, v, &mut seen, &mut problems, &mut total);
+            }
+        }
+    }
     let outcome = if problems.is_empty() { "ok:accepted".to_string() } else { format!("err:{} of {} recomputed blindings/points bad: {}", problems.len(), total, problems[..problems.len().min(4)].join("; ")) };
     push(out, format!("{name}-fresh"), "witness-side recomputation of blindings over repeated generations", vec![format!("{total} elements")], outcome, "expect-ok");
 }
@@ -575,5 +674,74 @@ where
                 else if overlap { format!("err:generator sets of api ids {} and {} overlap", sets[i].0, sets[j].0) } else { "ok:accepted".to_string() };
             push(out, format!("{name}-generators-{}-vs-{}", sets[i].0, sets[j].0), "Generators::create pair", vec![], outcome, "expect-ok");
         }
+    }
+}
+
+
+/// C11: the same api id (custom or absent) under the two ciphersuites gives disjoint generators, in either call order, and
+/// repeated calls with different counts stay prefix-consistent (no state may leak between calls, suites or threads).
+pub fn generators_cross(out: &mut Vec<Value>) {
+    use elliptic_curve::group::Curve;
+    use zkryptium::bbsplus::generators::Generators;
+    let enc = |g: &Generators| -> Vec<Vec<u8>> { g.values.iter().map(|p| p.to_affine().to_compressed().to_vec()).collect() };
+    let ids: Vec<(&str, Option<Vec<u8>>, bool)> = vec![("custom-a", Some(b"custom-api-id-a_".to_vec()), true), ("custom-b", Some(b"custom-api-id-b_".to_vec()), false), ("none", None, true)];
+    for (idn, id, sha_first) in ids {
+        let (a, b) = if sha_first {
+            let a = enc(&Generators::create::<Sha>(6, id.as_deref()));
+            let b = enc(&Generators::create::<Shake>(6, id.as_deref()));
+            (a, b)
+        } else {
+            let b = enc(&Generators::create::<Shake>(6, id.as_deref()));
+            let a = enc(&Generators::create::<Sha>(6, id.as_deref()));
+            (a, b)
+        };
+        let overlap = a.iter().any(|g| b.contains(g));
+        let outcome = if overlap { format!("err:api id {idn}: the two ciphersuites share generators") } else { "ok:accepted".to_string() };
+        push(out, format!("cross-suite-generators-{idn}-{}", if sha_first { "sha-first" } else { "shake-first" }), "Generators::create::<Sha> vs ::<Shake>", vec![idn.to_string()], outcome, "expect-ok");
+    }
+    // call sequences with varying counts, also from another thread
+    let id = Some(b"sequence-api-id_".to_vec());
+    let full = enc(&Generators::create::<Sha>(12, id.as_deref()));
+    let mut problems: Vec<String> = vec![];
+    for k in [5usize, 9, 3, 12, 0, 1, 12] {
+        let g = enc(&Generators::create::<Sha>(k, id.as_deref()));
+        if g.len() != k || g[..] != full[..k] { problems.push(format!("create({k}) after earlier calls is not the prefix of create(12)")); }
+    }
+    let id2 = id.clone();
+    let from_thread = std::thread::spawn(move || enc(&Generators::create::<Sha>(12, id2.as_deref()))).join().unwrap();
+    if from_thread != full { problems.push("create(12) on another thread differs".into()); }
+    let outcome = if problems.is_empty() { "ok:accepted".to_string() } else { format!("err:{}", problems.join("; ")) };
+    push(out, "generators-call-sequences".to_string(), "Generators::create sequence", vec![], outcome, "expect-ok");
+}
+
+/// C10: size limits of key generation and hash_to_scalar
+pub fn limits<CS: BbsCiphersuite>(name: &str, out: &mut Vec<Value>)
+where
+    CS::Expander: for<'a> ExpandMsg<'a>,
+{
+    use zkryptium::utils::util::bbsplus_utils::hash_to_scalar;
+    let cases: Vec<(&str, Vec<u8>, Option<Vec<u8>>, Option<Vec<u8>>, &str)> = vec![
+        ("ikm-32", vec![7u8; 32], None, None, "expect-ok"),
+        ("ikm-31", vec![7u8; 31], None, None, "expect-err"),
+        ("ikm-0", vec![], None, None, "expect-err"),
+        ("key_info-65535", IKM.to_vec(), Some(vec![1u8; 65535]), None, "expect-ok"),
+        ("key_info-65536", IKM.to_vec(), Some(vec![1u8; 65536]), None, "expect-err"),
+        ("key_dst-255", IKM.to_vec(), None, Some(vec![b'd'; 255]), "expect-ok"),
+        ("key_dst-256", IKM.to_vec(), None, Some(vec![b'd'; 256]), "expect-err"),
+        ("key_dst-1000", IKM.to_vec(), None, Some(vec![b'd'; 1000]), "expect-err"),
+    ];
+    for (id, ikm, ki, kd, expect) in cases {
+        let outcome = guard(move || match KP::<CS>::generate(&ikm, ki.as_deref(), kd.as_deref()) {
+            Ok(_) => "ok:accepted".to_string(),
+            Err(e) => format!("err:{e:?}"),
+        });
+        push(out, format!("{name}-keygen-{id}"), "KeyPair::generate", vec![id.to_string()], outcome, expect);
+    }
+    for (id, n, expect) in [("dst-255", 255usize, "expect-ok"), ("dst-256", 256, "expect-err"), ("dst-300", 300, "expect-err"), ("dst-0", 0, "expect-ok")] {
+        let outcome = guard(move || match hash_to_scalar::<CS>(b"msg", &vec![b'x'; n]) {
+            Ok(_) => "ok:accepted".to_string(),
+            Err(e) => format!("err:{e:?}"),
+        });
+        push(out, format!("{name}-hash_to_scalar-{id}"), "hash_to_scalar", vec![id.to_string()], outcome, expect);
     }
 }
